@@ -78,15 +78,16 @@ extern ssize_t mpt_message_argv(MPT_STRUCT(message) *msg, int sep)
 		msg->used = curr.iov_len -= part;
 	}
 	else if ((part = mpt_memfcn(cont, clen, notSpace, 0)) >= 0) {
-		while ((size_t) part > cont->iov_len) {
+		while ((size_t) part >= cont->iov_len) {
 			part -= cont->iov_len;
 			--clen;
 			++cont;
 		}
 		msg->base = curr.iov_base = ((uint8_t *) cont->iov_base) + part;
 		msg->used = curr.iov_len  = cont->iov_len - part;
-		msg->cont = cont;
-		msg->clen = clen;
+		/* fragment is current data now, continue after it */
+		msg->cont = ++cont;
+		msg->clen = --clen;
 	}
 	/* find space character not in escapes */
 	if (!isgraph(sep)) {
